@@ -1287,7 +1287,15 @@ impl ViCut {
 					}
 				}
 			}
-			_ => unimplemented!()
+			// Strings, arrays, null: plain assignment replaces the value, arithmetic is an error
+			other => {
+				match op {
+					BinOp::Equals => {
+						*other = value;
+					}
+					_ => return Err(format!("Cannot perform {op} on variable {name}"))
+				}
+			}
 		}
 		Ok(())
 	}
